@@ -71,6 +71,10 @@ CLAIMS = {
          "Necessary conditions: File::create(tmp) < both cleaning passes < flush < drop < rename(tmp, path) on every exporting path, rename only on the Ok edge of flush, tmp = path.with_extension (same directory), nobody else creates files except the statistics page writer; export lines carry version, info hash and .0/.1 of that torrent's clean_and_get_num_peers, only on num_peers != 0; tally messages: PeerRemoved names the removed entry's id, PeerAdded the request's id, id change sends both, same id none (rule exposed a genuine defect, fix: c58c050); cleaners emit PeerRemoved per expired peer; worker +1/-1 dominated by the matching arm; totals stored after both passes from the passes' results. Two recorded known findings (totals / tallies of access-list-dropped torrents).",
          "Not decided: statistics arithmetic over message histories, rename atomicity (POSIX).",
          "DESIGN.md section 2, C20"),
+ "C14": ("abstract interpretation of the reply writers' output streams by a bencode grammar in the checker; reader/writer table agreement for requests; path analysis of the percent-decoder; serde schema unambiguity",
+         "Necessary conditions: every output stream of the three reply writers (all paths, loops 0/1 times) is a well-formed bencoded dictionary with literal keys strictly ascending at each level and every length prefix agreeing with its payload (N*6 with 4+2 bytes per element of the same list, N*18 with 16+2, `20:` with a [u8; 20], len(msg) with msg), files keyed by a BTreeMap; request writer and reader agree key by key on the struct field and codec (urlencode/urldecode 20 bytes, itoa/parse::<u16|usize>, event literals vs from_str), unknown keys ignored; urldecode_20_bytes `?`-checks every char, compares with 255, decodes exactly two hex chars and tests exhaustion; untagged Response is unambiguous.",
+         "Trusted: serde_bencode, urlencoding, hex, itoa. Observation not armed: the parser caps `key` at 100 encoded bytes while the writer does not.",
+         "DESIGN.md section 2, C14"),
 }
 
 PENDING_REASON = "check under construction in this build phase (static rules designed in DESIGN.md section 2); not claimed until its rule set is validated both ways"
